@@ -300,12 +300,15 @@ class DataPacketReceiver(Elaboratable):
 
                 # Check our CRC based on the word we've extracted, and strobe either ``packet_good``
                 # or ``packet_bad``, depending on its validity.
-                with m.If(data_to_check == crc32.crc):
-                    m.d.comb += self.packet_good.eq(1)
-                with m.Else():
-                    m.d.comb += self.packet_bad.eq(1)
+                # The remainder of the CRC is only there once the stream carries a valid word; idle
+                # (not-valid) cycles are waited out.
+                with m.If(sink.valid):
+                    with m.If(data_to_check == crc32.crc):
+                        m.d.comb += self.packet_good.eq(1)
+                    with m.Else():
+                        m.d.comb += self.packet_bad.eq(1)
 
-                # Finally, wait for our next packet.
+                    # Finally, wait for our next packet.
                     m.next = "WAIT_FOR_HPSTART"
 
 
